@@ -61,6 +61,7 @@ def strategy_(draw, tier):
     g, case = draw(idx.indexed_file(tier, max_records=20))
     case.pop("_twice")
     case["regions"] = [draw(st.lists(region(g), min_size=1, max_size=4 if k else 1)) for k in range(4)]
+    case["via"] = draw(st.sampled_from(["api", "api", "cli", "cli_stdout"]))
     return case
 
 
@@ -82,6 +83,8 @@ def run_case(case):
     fmt = "unstable" if case["stable"] else "stable"
     classes = set()
     nontrivial = False
+    via = case.get("via", "api")
+    classes.add("via:" + via)
     with core.workdir() as d:
         gaf_path, table = idx.materialize(d, case)
         gfa_path = d + "/g.gfa"
@@ -98,11 +101,11 @@ def run_case(case):
             ords = [i for i, t in enumerate(trav) if t & under]
             what = "view -r " + " -r ".join(regs)
             res, out = idx.run_view(d, gaf_path, gfa_path, d + "/r%d.txt" % qi, regions=regs, index=d + "/in.gvi",
-                                    step_limit=limit)
+                                    step_limit=limit, via=via)
             core.check(res[0] != "steplimit", "%s does not terminate (more than %d line events in view.py)", what, limit)
             c04.check_selection(what, res, out, [idx.expected_plain(lines[i]) for i in ords])
             res, out = idx.run_view(d, gaf_path, gfa_path, d + "/rf%d.txt" % qi, regions=regs, index=d + "/in.gvi",
-                                    fmt=fmt, step_limit=limit * 20)
+                                    fmt=fmt, step_limit=limit * 20, via=via)
             core.check(res[0] != "steplimit", "%s --format does not terminate", what)
             c04.check_selection(what + " --format " + fmt, res, out, [whole[i] for i in ords])
             for rg in regs:
@@ -133,3 +136,24 @@ def run_case(case):
                 classes.add("nothing_found")
     classes |= set(idx.file_classes(case, table))
     return core.Result(nontrivial, sorted(classes))
+
+
+def enumerations(tier, shard, nshards):
+    if shard != 0:
+        return
+
+    def gen():
+        # more than 100 aligned nodes under one region (thresholds on the number of nodes are invisible to small graphs)
+        for stable in (False, True):
+            g, case = idx.big_file_case(31, 700, stable, n_ref=160)
+            ext = max(d["so"] + d["ln"] for d in g["nodes"].values() if d["sn"] == "chr1")
+            case["regions"] = [["chr1:0-%d" % (ext - 1)], ["chr1:%d-%d" % (ext // 3, ext - 2)], ["chr1:0-0", "chr1:%d-%d" % (ext - 1, ext - 1)],
+                               ["HG01#1#ctg0:0-5"]]
+            yield case
+        # a reference built on a region: the contig name itself contains ':' and '-'
+        g, case = idx.big_file_case(32, 60, False, n_ref=12, contig="chr6:28510120-33480577")
+        case["regions"] = [["chr6:28510120-33480577:0-9"], ["chr6:28510120-33480577:5-40", "HG01#1#ctg1:100-101"],
+                           ["chr6:28510120-33480577:1000-2000"], ["chr6:28510120-33480577:3-3"]]
+        yield case
+
+    yield ("regions over 160 aligned nodes (stable and unstable GAF), and a contig whose name contains ':' and '-'", gen(), True)
